@@ -1,7 +1,7 @@
 (* C15 — construction of the service, the induction over histories, and the clause theorems. *)
 From Coq Require Import List Bool NArith ZArith Lia ZifyBool ZifyN Arith.
 From AUC Require Import Prelude.PyStr Gen.Eventing C15.Model C15.Spec C15.Lemmas C15.Inv C15.Batch C15.Steps
-  C15.StepSet C15.StepAdv.
+  C15.StepSet C15.StepAdv C15.StepLate.
 Import ListNotations.
 Local Open Scope Z_scope.
 
@@ -110,7 +110,7 @@ Section Main.
   Lemma step_all m sp o :
     R c m sp -> op_ok o = true -> now m <= horizon -> step_ok c m sp o.
   Proof.
-    intros HR Hok Hh. destruct o as [cb t sid|sid|i x|dt|k oc|sid k].
+    intros HR Hok Hh. destruct o as [cb t sid|sid|i x|dt|dt i x|k oc|sid k].
     - cbn in Hok. destruct sid; try discriminate.
       + now apply step_subscribe.
       + apply step_renew; auto.
@@ -118,6 +118,7 @@ Section Main.
     - now apply step_unsub.
     - now apply step_set.
     - now apply step_adv.
+    - now apply step_late.
     - now apply step_deliver.
     - apply step_jump; auto. cbn in Hok. unfold seq_max. lia.
   Qed.
